@@ -22,13 +22,15 @@
     list_rt, list_cap, list_refuse value trees of strings / numbers / lists; the depth cap 1000 counts
                                    non-empty lists only
     legacy_number64_counterexample, legacy_flag_counterexample  the two repaired defects
+    legacy_unicode_flag_counterexample  the flag lookup used Unicode lower-casing (U+0130 → i); repaired
     legacy_astring_counterexample  ExpectAString used to go on after a malformed literal header (repaired
                                    under C04; the model follows the repaired decoder)
     string_wellformed              what String writes is accepted by the strict RFC 9051 string reader of
                                    Spec/Wire.lean, denotes the string, and obeys RFC 7888's literal rules
   Validated by the oracle only (not theorems): the same well-formedness for mailbox names (astring whose
-  content is canonical modified UTF-7) and sequence-set texts; flags with bytes ≥ 0x80 (Unicode
-  `strings.ToLower` in Go) are outside the model.
+  content is canonical modified UTF-7) and sequence-set texts; decoder-side: ExpectMailbox accepts a
+  name ⇔ the RFC-side `Utf7Spec.specDecode` does.  Flags with bytes ≥ 0x80 are covered by flag_rt
+  (the refusal theorems are about 7-bit flags, which is all RFC 9051 allows).
   Side conditions on `rest` are the grammar's separators: a number is followed by a non-digit, an
   atom-like token (flag, INBOX, sequence set) by a byte that cannot continue it.
 -/
@@ -396,5 +398,20 @@ theorem legacy_astring_counterexample :
     expectAString .server ⟨[123, 97, 98, 99, 32, 100], none, []⟩ =
       (false, [], ⟨[97, 98, 99, 32, 100], some .expect, []⟩) := by
   decide
+
+/-- the flag lookup as shipped lower-cased with Go's Unicode `strings.ToLower`: the keyword
+    `$İmportant` (U+0130, which the encoder writes verbatim) was decoded as `$Important`, and
+    `\Subscrİbed` as `\Subscribed`; with ASCII-only folding they come back unchanged -/
+theorem legacy_unicode_flag_counterexample :
+    Legacy.canonicalFlag [36, 196, 176, 109, 112, 111, 114, 116, 97, 110, 116] =
+      [36, 73, 109, 112, 111, 114, 116, 97, 110, 116] ∧
+    canonicalFlag [36, 196, 176, 109, 112, 111, 114, 116, 97, 110, 116] =
+      [36, 196, 176, 109, 112, 111, 114, 116, 97, 110, 116] ∧
+    (encFlag [36, 196, 176, 109, 112, 111, 114, 116, 97, 110, 116] {}).err = false ∧
+    Legacy.canonicalMailboxAttr [92, 83, 117, 98, 115, 99, 114, 196, 176, 98, 101, 100] =
+      [92, 83, 117, 98, 115, 99, 114, 105, 98, 101, 100] ∧
+    canonicalMailboxAttr [92, 83, 117, 98, 115, 99, 114, 196, 176, 98, 101, 100] =
+      [92, 83, 117, 98, 115, 99, 114, 196, 176, 98, 101, 100] := by
+  decide +kernel
 
 end GoImap.C01
